@@ -140,6 +140,41 @@ impl Precedence {
             BinOpType::Equals => Precedence::Add,
         }
     }
+
+    /// Precedence for the right-hand operand of a binary operator. `^`
+    /// is the only right-associative operator, every other operator
+    /// needs parentheses around a right operand of its own level.
+    pub fn right(binop_type: BinOpType) -> Precedence {
+        match binop_type {
+            BinOpType::Add => Precedence::Div,
+            BinOpType::Sub => Precedence::Div,
+            BinOpType::Pow => Precedence::Pow,
+            BinOpType::Frac => Precedence::Mul,
+            BinOpType::ShiftL => Precedence::Mul,
+            BinOpType::ShiftR => Precedence::Mul,
+            BinOpType::Mod => Precedence::Mul,
+            BinOpType::And => Precedence::Mul,
+            BinOpType::Or => Precedence::Mul,
+            BinOpType::Xor => Precedence::Mul,
+            BinOpType::Equals => Precedence::Add,
+        }
+    }
+
+    /// Precedence for a factor of a product other than the first one:
+    /// a leading sign would otherwise read as addition or subtraction.
+    pub fn factor(expr: &Expr) -> Precedence {
+        match *expr {
+            Expr::UnaryOp(UnaryOpExpr {
+                op: UnaryOpType::Positive,
+                ..
+            })
+            | Expr::UnaryOp(UnaryOpExpr {
+                op: UnaryOpType::Negative,
+                ..
+            }) => Precedence::Term,
+            _ => Precedence::Pow,
+        }
+    }
 }
 
 impl fmt::Display for Expr {
@@ -161,7 +196,7 @@ impl fmt::Display for Expr {
                     }
                     recurse(&binop.left, fmt, succ)?;
                     write!(fmt, "{}", binop.op.symbol())?;
-                    recurse(&binop.right, fmt, op_prec)?;
+                    recurse(&binop.right, fmt, Precedence::right(binop.op))?;
                     if prec < op_prec {
                         write!(fmt, ")")?;
                     }
@@ -169,12 +204,26 @@ impl fmt::Display for Expr {
                 }
                 Expr::UnaryOp(ref unaryop) => match unaryop.op {
                     UnaryOpType::Positive => {
+                        if prec < Precedence::Plus {
+                            write!(fmt, "(")?;
+                        }
                         write!(fmt, "+")?;
-                        recurse(&unaryop.expr, fmt, Precedence::Plus)
+                        recurse(&unaryop.expr, fmt, Precedence::Plus)?;
+                        if prec < Precedence::Plus {
+                            write!(fmt, ")")?;
+                        }
+                        Ok(())
                     }
                     UnaryOpType::Negative => {
+                        if prec < Precedence::Plus {
+                            write!(fmt, "(")?;
+                        }
                         write!(fmt, "-")?;
-                        recurse(&unaryop.expr, fmt, Precedence::Plus)
+                        recurse(&unaryop.expr, fmt, Precedence::Plus)?;
+                        if prec < Precedence::Plus {
+                            write!(fmt, ")")?;
+                        }
+                        Ok(())
                     }
                     UnaryOpType::Degree(ref suffix) => {
                         if prec < Precedence::Mul {
@@ -197,7 +246,7 @@ impl fmt::Display for Expr {
                     }
                     for expr in exprs.iter().skip(1) {
                         write!(fmt, " ")?;
-                        recurse(expr, fmt, Precedence::Pow)?;
+                        recurse(expr, fmt, Precedence::factor(expr))?;
                     }
                     if prec < Precedence::Mul {
                         write!(fmt, ")")?;
@@ -223,7 +272,7 @@ impl fmt::Display for Expr {
                         write!(fmt, "(")?;
                     }
                     write!(fmt, "{} of ", property)?;
-                    recurse(expr, fmt, Precedence::Div)?;
+                    recurse(expr, fmt, Precedence::Mul)?;
                     if prec < Precedence::Add {
                         write!(fmt, ")")?;
                     }
